@@ -992,6 +992,16 @@ impl TypeSpace {
             (None, None, None)
         };
 
+        // A numeric default value must itself satisfy the declared bounds.
+        let within_bounds = |value: f64| {
+            validation.as_ref().map_or(true, |v| {
+                v.minimum.map_or(true, |m| value >= m)
+                    && v.exclusive_minimum.map_or(true, |m| value > m)
+                    && v.maximum.map_or(true, |m| value <= m)
+                    && v.exclusive_maximum.map_or(true, |m| value < m)
+            })
+        };
+
         // Ordered from most- to least-restrictive.
         // JSONSchema format, Rust Type, Rust NonZero Type, Rust type min, Rust type max
         let formats: &[(&str, &str, &str, f64, f64)] = &[
@@ -1085,7 +1095,7 @@ impl TypeSpace {
                         .and_then(|m| m.default.as_ref())
                         .and_then(|v| v.as_f64())
                     {
-                        if default < *imin || default > *imax {
+                        if default < *imin || default > *imax || !within_bounds(default) {
                             return Err(Error::InvalidValue);
                         }
                     }
@@ -1114,7 +1124,7 @@ impl TypeSpace {
             // f64 here, but we're already constrained by the schemars
             // representation so ... it's probably the best we can do at
             // the moment.
-            match (default.as_f64(), min, max) {
+            match (default.as_f64().filter(|value| within_bounds(*value)), min, max) {
                 (Some(_), None, None) => Some(()),
                 (Some(value), None, Some(fmax)) if value <= fmax => Some(()),
                 (Some(value), Some(fmin), None) if value >= fmin => Some(()),
